@@ -143,13 +143,105 @@ LET: dict = {
     'BCI': {'k': 'col', 'blocks': ['S22I', 'S22']},
 }
 
+# Operands used by the reduce checks (C01 / C07) only.  The other checks copy LET at import time and iterate over
+# it, so additions meant for reduce() go here (names must not clash with LET; entries may refer to LET).
+LET_EXT: dict = {
+    # --- foreign wrappers: a lazy transpose / inverse next to an operator of the wrapped object's CLASS that is not
+    # the wrapped OBJECT (different parameters, so that a wrong cancellation changes the map) ---
+    'P3b': {'k': 'pack', 'mask': [True, True, False], 's': [3]},    # same count as P3, other mask
+    'P3c': {'k': 'pack', 'mask': [False, True, False], 's': [3]},   # other count
+    'P3all': {'k': 'pack', 'mask': [True, True, True], 's': [3]},   # square pack
+    'P3bT': {'k': 'expr', 'e': {'T': 'P3b'}},
+    'P3cT': {'k': 'expr', 'e': {'T': 'P3c'}},
+    'P3allT': {'k': 'expr', 'e': {'T': 'P3all'}},
+    'X3u2': {'k': 'index', 'idx': [{'arr': [0, 1]}], 's': [3], 'unique': True},
+    'X3u2T': {'k': 'expr', 'e': {'T': 'X3u2'}},
+    'X3r2': {'k': 'index', 'idx': [{'arr': [0, 2, 2]}], 's': [3]},
+    'X3r2T': {'k': 'expr', 'e': {'T': 'X3r2'}},
+    'D3I': {'k': 'expr', 'e': {'I': 'D3'}},
+    'D3b': {'k': 'diag', 'v': [2, 1, 4], 's': [3]},
+    'D3bI': {'k': 'expr', 'e': {'I': 'D3b'}},
+    'S22c': {'k': 'dense', 'm': [[3, 1], [1, 2]]},
+    'S22cI': {'k': 'expr', 'e': {'I': 'S22c'}},
+    'Q1b': {'k': 'qurot', 'stokes': 'IQU', 'shape': [2], 'q': [1]},  # equal to Q1 but a distinct object
+    'PlT': {'k': 'expr', 'e': {'T': 'Pl'}},
+    # --- corner index arrays: one element, 0-d, empty, all equal, a full permutation (flagged / not), a 2-d array ---
+    'X3k1': {'k': 'index', 'idx': [{'arr': [1]}], 's': [3]},
+    'X3k1n': {'k': 'index', 'idx': [{'arr': [-1]}], 's': [3]},
+    'X3k0': {'k': 'index', 'idx': [{'arr': 2}], 's': [3]},                                   # 0-d integer array
+    'X3k00': {'k': 'index', 'idx': [{'arr': []}], 's': [3]},                                 # selects nothing
+    'X3eq': {'k': 'index', 'idx': [{'arr': [1, 1, 1]}], 's': [3]},
+    'X3perm': {'k': 'index', 'idx': [{'arr': [2, 0, 1]}], 's': [3]},
+    'X3permu': {'k': 'index', 'idx': [{'arr': [2, 0, 1]}], 's': [3], 'unique': True},
+    'X3d2': {'k': 'index', 'idx': [{'arr': [[0, 1], [1, 2]]}], 's': [3]},
+    'X23k1': {'k': 'index', 'idx': ['...', {'arr': [1]}], 's': [2, 3], 'tuple': True},
+    'X23k0': {'k': 'index', 'idx': [':', {'arr': 0}], 's': [2, 3], 'tuple': True},
+    'X3k1T': {'k': 'expr', 'e': {'T': 'X3k1'}},
+    'X3k1nT': {'k': 'expr', 'e': {'T': 'X3k1n'}},
+    'X3k0T': {'k': 'expr', 'e': {'T': 'X3k0'}},
+    'X3k00T': {'k': 'expr', 'e': {'T': 'X3k00'}},
+    'X3eqT': {'k': 'expr', 'e': {'T': 'X3eq'}},
+    'X3permT': {'k': 'expr', 'e': {'T': 'X3perm'}},
+    'X3permuT': {'k': 'expr', 'e': {'T': 'X3permu'}},
+    'X3d2T': {'k': 'expr', 'e': {'T': 'X3d2'}},
+    'X23k1T': {'k': 'expr', 'e': {'T': 'X23k1'}},
+    'X23k0T': {'k': 'expr', 'e': {'T': 'X23k0'}},
+    # --- index operators on pytrees with several leaves (TransposeIndexRule needs equal leaf shapes) ---
+    'Xm2': {'k': 'index', 'idx': ['...', {'arr': [1, 1, 0]}], 's': {'list': [[2, 3], [2, 3]]}, 'tuple': True},
+    'Xm2T': {'k': 'expr', 'e': {'T': 'Xm2'}},
+    'Xm2d': {'k': 'index', 'idx': ['...', {'arr': [1, 1, 0]}], 's': {'list': [[2, 3], [3]]}, 'tuple': True},
+    'Xm2dT': {'k': 'expr', 'e': {'T': 'Xm2d'}},
+    'Xm2id': {'k': 'index', 'idx': ['...'], 's': {'list': [[2, 3], [3]]}, 'tuple': True},  # no-op on every leaf
+    # --- leaf-wise operators on pytrees whose leaves have DIFFERENT ranks: a no-op on some leaves and a real change
+    # on the others, with the untouched leaf first and last ---
+    'Rm12': {'k': 'ravel', 's': {'list': [[4], [2, 2]]}},                                   # axes (0, -1)
+    'Rm21': {'k': 'ravel', 's': {'list': [[2, 2], [4]]}},
+    'Rm23': {'k': 'ravel', 'first': 1, 'last': -1, 's': {'list': [[2, 2], [2, 2, 2]]}},     # axes (1, -1)
+    'Rm32': {'k': 'ravel', 'first': 1, 'last': -1, 's': {'list': [[2, 2, 2], [2, 2]]}},
+    'Rmd': {'k': 'ravel', 'first': 1, 'last': -1, 's': {'dict': {'cube': [2, 2, 2], 'map': [2, 2]}}},
+    'Rm3': {'k': 'ravel', 'first': -2, 'last': -1, 's': {'tuple': [[2, 2], [3], [1, 2, 2]]}},  # no-op on the middle leaf only
+    'Rm11': {'k': 'ravel', 'first': 1, 'last': 1, 's': {'list': [[2, 2], [2, 2, 2]]}},      # no-op on every leaf
+    'Rmall': {'k': 'ravel', 's': {'list': [[2, 2], [2, 1, 2]]}},                             # a real change on every leaf
+    'Shm12': {'k': 'reshape', 'shape': [4], 's': {'list': [[4], [2, 2]]}},
+    'Shm21': {'k': 'reshape', 'shape': [4], 's': {'list': [[2, 2], [4]]}},
+    'Shm44': {'k': 'reshape', 'shape': [4], 's': {'list': [[4], [4]]}},                      # no-op on every leaf
+    'Mm12': {'k': 'moveaxis', 'src': 0, 'dst': -1, 's': {'list': [[3], [2, 3]]}},
+    'Mm21': {'k': 'moveaxis', 'src': 0, 'dst': -1, 's': {'list': [[2, 3], [3]]}},
+    'Mm12i': {'k': 'moveaxis', 'src': -1, 'dst': 0, 's': {'list': [[3], [3, 2]]}},
+    'Rm12T': {'k': 'expr', 'e': {'T': 'Rm12'}},
+    'Rm21T': {'k': 'expr', 'e': {'T': 'Rm21'}},
+    'Rm23T': {'k': 'expr', 'e': {'T': 'Rm23'}},
+    'Rm32T': {'k': 'expr', 'e': {'T': 'Rm32'}},
+    'Shm12T': {'k': 'expr', 'e': {'T': 'Shm12'}},
+    'Im12': {'k': 'ident', 's': {'list': [[4], [2, 2]]}},
+    'Hm12': {'k': 'homoth', 'v': 2, 's': {'list': [[4], [4]]}},
+    'BDrm': {'k': 'bdiagop', 'blocks': {'dict': {'r': 'Rm12', 'i': 'I2'}}},
+    'BDrm2': {'k': 'bdiagop', 'blocks': ['Rm32', 'Rm23']},
+    'BDrmn': {'k': 'bdiagop', 'blocks': ['Rm11', 'Shm44']},   # becomes an identity through the blocks' own reduce()
+    'BCrm': {'k': 'col', 'blocks': ['Rm12', 'Shm12']},
+}
+
+ALL = {**LET, **LET_EXT}
+assert len(ALL) == len(LET) + len(LET_EXT)
+
 _env = {}
+_env_ext = {}
 
 
-def env():
+def env(ext=False):
+    """The real operator objects of LET (ext: of LET and LET_EXT; the objects of LET are then the same objects)."""
     if not _env:
         _env.update(A.build_env(LET))
-    return _env
+    if not ext:
+        return _env
+    if not _env_ext:
+        _env_ext.update(_env)
+        for name, d in LET_EXT.items():
+            try:
+                _env_ext[name] = A.build_operand(d, _env_ext)
+            except Exception as e:  # reported by the cases that use the operand
+                _env_ext[name] = A.Unbuildable(name, e)
+    return _env_ext
 
 
 def key(s) -> str:
@@ -166,24 +258,26 @@ def key(s) -> str:
 
 
 _typed = {}
+_typed_ext = {}
 
 
-def typed():
+def typed(ext=False):
     """name -> (in key, out key)"""
-    if not _typed:
-        for n, o in env().items():
+    tt = _typed_ext if ext else _typed
+    if not tt:
+        for n, o in env(ext).items():
             if isinstance(o, A.Unbuildable):
                 continue
             try:
-                _typed[n] = (key(o.in_structure()), key(o.out_structure()))
+                tt[n] = (key(o.in_structure()), key(o.out_structure()))
             except Exception:
                 continue
-    return _typed
+    return tt
 
 
-def chains(maxlen: int, names=None):
+def chains(maxlen: int, names=None, ext=False):
     """All type-compatible chains (left operand applied last) of 2..maxlen operand names."""
-    t = typed()
+    t = typed(ext)
     names = list(names or t)
     by_out = {}
     for n in names:
@@ -210,7 +304,7 @@ def used_names(e, acc=None):
     acc = set() if acc is None else acc
     if isinstance(e, str):
         acc.add(e)
-        d = LET.get(e)
+        d = ALL.get(e)
         if d and d['k'] == 'expr':
             used_names(d['e'], acc)
         if d and 'blocks' in d:
@@ -292,3 +386,118 @@ PATTERNS = {
     'near-ravel-different-operator': ['R32', 'Sh32T'],
     'near-inverse-distinct-object': ['S22I', 'S22b'],
 }
+
+# patterns over LET_EXT (reduce checks only)
+PATTERNS_EXT = {
+    # the genuine patterns on the new operands
+    'pack-packT-b': ['P3b', 'P3bT'],
+    'pack-packT-square': ['P3all', 'P3allT'],
+    'indexT-index-2': ['X3r2T', 'X3r2'],
+    'diag3-inverse': ['D3I', 'D3'],
+    'indexT-index-two-leaves': ['Xm2T', 'Xm2'],
+    'near-indexT-index-leaf-shapes': ['Xm2dT', 'Xm2d'],
+    'index-noop-mixed-ranks': ['Xm2id'],
+    # index.T @ index (-> diagonal of the coverage) and index @ index.T (-> identity iff flagged unique) on the corner
+    # index arrays
+    'indexT-index-size1': ['X3k1T', 'X3k1'],
+    'indexT-index-size1-neg': ['X3k1nT', 'X3k1n'],
+    'indexT-index-0d': ['X3k0T', 'X3k0'],
+    'indexT-index-empty': ['X3k00T', 'X3k00'],
+    'indexT-index-all-equal': ['X3eqT', 'X3eq'],
+    'indexT-index-permutation': ['X3permT', 'X3perm'],
+    'indexT-index-2d-array': ['X3d2T', 'X3d2'],
+    'indexT-index-size1-axis1': ['X23k1T', 'X23k1'],
+    'indexT-index-0d-axis1': ['X23k0T', 'X23k0'],
+    'index-indexT-permutation-flagged': ['X3permu', 'X3permuT'],
+    'near-indexT-index-permutation-flagged': ['X3permuT', 'X3permu'],
+    'near-index-indexT-size1': ['X3k1', 'X3k1T'],
+    'near-index-indexT-0d': ['X3k0', 'X3k0T'],
+    'near-index-indexT-empty': ['X3k00', 'X3k00T'],
+    'near-index-indexT-permutation-unflagged': ['X3perm', 'X3permT'],
+    'near-index-indexT-size1-axis1': ['X23k1', 'X23k1T'],
+    # leaf-wise operators acting on some leaves only: alone, against their own transpose, in blocks
+    'ravel-mixed-ranks-noop-first': ['Rm12'],
+    'ravel-mixed-ranks-noop-last': ['Rm21'],
+    'ravel1-mixed-ranks-noop-first': ['Rm23'],
+    'ravel1-mixed-ranks-noop-last': ['Rm32'],
+    'ravel1-mixed-ranks-dict': ['Rmd'],
+    'ravel-mixed-ranks-noop-middle': ['Rm3'],
+    'ravel-mixed-ranks-noop-all': ['Rm11'],
+    'ravel-mixed-ranks-none-noop': ['Rmall'],
+    'reshape-mixed-ranks-noop-first': ['Shm12'],
+    'reshape-mixed-ranks-noop-last': ['Shm21'],
+    'reshape-two-leaves-noop-all': ['Shm44'],
+    'moveaxis-mixed-ranks-noop-first': ['Mm12'],
+    'moveaxis-mixed-ranks-noop-last': ['Mm21'],
+    'moveaxis-mixed-ranks-pair': ['Mm12i', 'Mm12'],
+    'ravelT-ravel-mixed-ranks': ['Rm12T', 'Rm12'],
+    'ravel-ravelT-mixed-ranks': ['Rm12', 'Rm12T'],
+    'ravelT-ravel-mixed-ranks-last': ['Rm21T', 'Rm21'],
+    'ravel1T-ravel1-mixed-ranks': ['Rm23T', 'Rm23'],
+    'ravel1-ravel1T-mixed-ranks': ['Rm32', 'Rm32T'],
+    'near-reshape-ravelT-mixed-ranks': ['Shm12', 'Rm12T'],
+    'near-ravel-reshapeT-mixed-ranks': ['Rm12', 'Shm12T'],
+    'near-scalar-ravel-mixed-ranks': ['Hm12', 'Rm12'],   # (the scalar already stands on the right side)
+    'ravel-identity-mixed-ranks': ['Rm12', 'Im12'],
+    'blockdiag-ravel-mixed-ranks': ['BDrm'],
+    'blockdiag-ravel1-mixed-ranks': ['BDrm2'],
+    'blockdiag-noop-mixed-ranks': ['BDrmn'],
+    'blockcol-ravel-mixed-ranks': ['BCrm'],
+    # a foreign wrapper that becomes adjacent only during the scan (after the pair in between has cancelled)
+    'near-pack-otherT-after-cancel': ['P3', 'D3I', 'D3', 'P3bT'],
+    'near-pack-otherT-after-own': ['P3', 'P3bT', 'P3b', 'P3bT'],
+    'near-index-otherT-after-cancel': ['X3u', 'D3I', 'D3', 'X3u2T'],
+    'near-indexT-other-after-cancel': ['X3r2T', 'D3I', 'D3', 'X3r'],
+    'near-inverse-other-after-cancel': ['D3bI', 'X3rT', 'X3r', 'D3'],
+}
+
+
+def _is_wrapper(o) -> bool:
+    return isinstance(o, A.J()['core']._AbstractLazyDualOperator)
+
+
+def _guard_classes(rule):
+    """(any, left, right) operand classes of a registered binary rule, each None or a tuple of classes."""
+    def tup(c):
+        return None if c is None else (c if isinstance(c, tuple) else (c,))
+
+    return tup(rule.operator_class), tup(rule.left_operator_class), tup(rule.right_operator_class)
+
+
+def foreign_wrapper_pairs(ext=True) -> dict:
+    """Near misses of every rule that has to decide whether a lazy wrapper (transpose / inverse / their subclasses)
+    wraps THE operator next to it: all type-compatible ordered pairs (w, x) and (x, w) of alphabet operands in which
+    w is a wrapper, x is not the wrapped object, and either x has the class of the wrapped object or the classes of
+    the pair are accepted by the class test of a registered rule whose guard names a wrapper class.
+    Generated from the alphabet and the imported registry, so that a new operand or rule extends the set."""
+    ev, t = env(ext), typed(ext)
+    core, rules = A.J()['core'], A.J()['rules']
+    guards = []
+    for r in rules.BINARY_RULE_REGISTRY:
+        anyc, lc, rc = _guard_classes(r)
+        if any(issubclass(c, core._AbstractLazyDualOperator) for cs in (anyc, lc, rc) if cs for c in cs):
+            guards.append((anyc, lc, rc))
+
+    def by_rule(a, b, w):
+        for anyc, lc, rc in guards:
+            if anyc is not None:
+                if isinstance(w, anyc) and type((b if w is a else a)) is type(w.operator):
+                    return True
+            elif (lc is None or isinstance(a, lc)) and (rc is None or isinstance(b, rc)):
+                return True
+        return False
+
+    out = {}
+    names = [n for n in t if not isinstance(ev[n], A.Unbuildable)]
+    for na in names:
+        for nb in names:
+            if t[na][0] != t[nb][1]:
+                continue
+            a, b = ev[na], ev[nb]
+            for w, x in ((a, b), (b, a)):
+                if not _is_wrapper(w) or w.operator is x or w is x:
+                    continue
+                if type(x) is type(w.operator) or by_rule(a, b, w):
+                    out[f'near-foreign-{na}-{nb}'] = [na, nb]
+                    break
+    return out
